@@ -122,6 +122,53 @@ def run(F, R, tier):
             for k in ("vp.id", "vp.holder"):
                 r1.require(is_none_lit(fo.get(k, set())), (fn, "carried-once", k), "%s must be None in the produced claims" % k)
             r1.require(used == set(pres_fields), (fn, "all-fields-used"), "presentation fields not carried into the claims: %s" % sorted(set(pres_fields) - used))
+    # whole-value flow, by abstract evaluation: on every path every field of the source that is present has an image in the
+    # claims that is the *whole* value (conversions only) — a filtered, truncated or conditionally dropped field has none
+    WCONV = re.compile(r"(try_from|from|into|try_into|as_ref|as_slice|as_str|deref|borrow|clone|cloned|to_owned|to_string|new|unix_timestamp|to_unix|Borrowed|Owned|map|as_deref)$")
+    for fn_, src_name, ty_ in ((CJ + "::CredentialJwtClaims::new", "credential", CRED), (PJ + "::PresentationJwtClaims::new", "presentation", PRES)):
+        if F.hir(fn_) is None:
+            continue
+        tabn = SR.Table(F, fn_, rule=r1, max_paths=6000)
+        SRC = SR.param(src_name)
+        fields = [f_["name"] for f_ in (F.adt_fields(ty_) or [])]
+
+        def leaves(v, out):
+            if isinstance(v, sym.V):
+                for x in v.fields:
+                    leaves(x, out)
+                if not v.fields:
+                    out.append(sym.term(v))
+            elif isinstance(v, sym.St):
+                for x in v.f.values():
+                    leaves(x, out)
+            elif isinstance(v, (tuple, list)):
+                for x in v:
+                    leaves(x, out)
+            else:
+                out.append(sym.term(v))
+            return out
+
+        def whole(t_, root, q):
+            if SR.pure(t_, root, conv=WCONV):
+                return True
+            # present Option / single-variant payloads of the field: Some(x) ↦ Some(conv(x))
+            for var in ("Some", "One", "Url", "Obj"):
+                if q.variant.get(root) == var and whole(t_, ("payload", root, var, 0), q):
+                    return True
+            return False
+        for q in tabn.paths:
+            if SR.is_failure(q.ret) or (isinstance(q.ret, sym.V) and q.ret.name == "Panic"):
+                continue
+            ls = leaves(q.ret, [])
+            for f_ in fields:
+                S = ("field", SRC, f_)
+                if q.variant.get(S) == "None":
+                    continue
+                got = [t_ for t_ in ls if SR.derives(t_, S)]
+                good = [t_ for t_ in got if whole(t_, S, q) or any(whole(t_, ("field", S, sub), q) or whole(t_, ("field", ("payload", S, "One", 0), sub), q) for sub in ("id", "properties", "0"))]
+                r1.require(bool(good), (fn_, "whole-value", f_), "%s.%s does not reach the claims as a whole value on some input (it is filtered, reduced or dropped): images %s — path: %s" % (
+                    src_name, f_, [sym.fmt(t_)[:60] for t_ in got][:3], q.describe()[:160]))
+        r1.site("%s: every present field of the %s has a whole-value image in the claims on %d evaluated path(s)" % (L.short(fn_), src_name, len(tabn.paths)))
     r1.floor(37)
 
     # ------------------------------------------------------------------ R2 backward field flow
@@ -220,6 +267,7 @@ def run(F, R, tier):
             en = SR.err_name(q.ret)
             r3.require(en == errv or "to_issuance_date" in sym.fmt(sym.term(q.ret)), (fn, "guard-outcome"), "a consistency guard returns %s" % en)
         # decision: on every accepting path a present member equals its registered claim (which must then be present too)
+        CCONV = re.compile(r"(try_from|from|into|as_ref|as_str|as_deref|deref|borrow|clone|to_owned|to_unix|unix_timestamp|to_issuance_date|Borrowed|Owned)$")
         for member, (claim, optional) in pairs.items():
             mt = mterm(member)
             ct = SR.fld(claim)
@@ -233,8 +281,9 @@ def run(F, R, tier):
                 for (a, c, _, _) in q.decisions:
                     if a[0] == "eq" and c is True:
                         x, y = a[1], a[2]
-                        if (SR.derives(x, mp) and SR.derives(y, ct)) or (SR.derives(y, mp) and SR.derives(x, ct)):
-                            eq_ok = True
+                        for u_, w_ in ((x, y), (y, x)):
+                            if SR.pure(u_, mp, conv=CCONV) and (SR.pure(w_, ct, conv=CCONV) or SR.pure(w_, ("payload", ct, "Some", 0), conv=CCONV)):
+                                eq_ok = True
                 claim_ok = (not optional) or SR.variant(q, ct) == "Some" or eq_ok and not any(SR.variant(q, ct) == "None" for _ in (0,))
                 r3.require(eq_ok and claim_ok and SR.variant(q, ct) != "None", (fn, "absent-claim", member),
                            "%s.%s present is accepted although the registered claim `%s` is %s: the duplicated value is silently dropped — path: %s" % (
